@@ -19,6 +19,11 @@ type frameSpec struct {
 	allowed  map[string]bool // "profile.Location.Line" (field or its elements)
 	allowAll map[string]bool // struct types all of whose fields may be written
 	stop     func(*ssa.Function) bool
+	// elemSensitive: allowed["T.F"] permits re-assigning the field only; writing the
+	// elements of the slice/map it holds additionally needs allowed["T.F[]"].
+	elemSensitive bool
+	// opsOnly restricts the element operations allowed on "T.F[]" (e.g. "delete").
+	opsOnly map[string]string
 	// okEffect can discharge an otherwise forbidden effect with a reason.
 	okEffect func(e Effect) string
 }
@@ -62,13 +67,23 @@ func (c *Check) checkFrame(m *modAnalyzer, fs frameSpec) (effects []Effect, nfn 
 	for _, t := range fs.tracked {
 		trackedNames[typeShort(t)] = true
 	}
+	isAllowed := func(k string, elem bool) bool {
+		if elem {
+			return fs.allowed[k+"[]"] || (!fs.elemSensitive && fs.allowed[k])
+		}
+		return fs.allowed[k]
+	}
 	byTarget := map[string][]Effect{}
 	for _, e := range effects {
 		if e.Root == rFresh {
 			continue
 		}
 		if e.T != "" && trackedNames[e.T] {
-			byTarget[e.T+"."+e.F] = append(byTarget[e.T+"."+e.F], e)
+			k := e.T + "." + e.F
+			if e.Elem {
+				k += "[]"
+			}
+			byTarget[k] = append(byTarget[k], e)
 			continue
 		}
 		if e.T == "" {
@@ -81,9 +96,12 @@ func (c *Check) checkFrame(m *modAnalyzer, fs frameSpec) (effects []Effect, nfn 
 			}
 		}
 	}
-	report := func(key, what string, es []Effect) {
+	report := func(key, what string, es []Effect, onlyOp string) {
 		var undis []Effect
 		for _, e := range es {
+			if onlyOp != "" && e.What == onlyOp {
+				continue
+			}
 			if fs.okEffect != nil {
 				if why := fs.okEffect(e); why != "" {
 					continue
@@ -92,8 +110,11 @@ func (c *Check) checkFrame(m *modAnalyzer, fs frameSpec) (effects []Effect, nfn 
 			undis = append(undis, e)
 		}
 		if len(undis) == 0 {
-			o := c.ok(fs.rule, key, "", what, fmt.Sprintf("no store, map update or mutating call on it in the %d module functions reachable from %s", nfn, fs.name))
-			_ = o
+			how := fmt.Sprintf("no store, map update or mutating call on it in the %d module functions reachable from %s", nfn, fs.name)
+			if onlyOp != "" {
+				how = fmt.Sprintf("only %s operations on it in the %d module functions reachable from %s", onlyOp, nfn, fs.name)
+			}
+			c.ok(fs.rule, key, "", what, how)
 			return
 		}
 		seen := map[string]bool{}
@@ -113,14 +134,28 @@ func (c *Check) checkFrame(m *modAnalyzer, fs frameSpec) (effects []Effect, nfn 
 		whole := byTarget[tn+".*"]
 		for i := 0; i < st.NumFields(); i++ {
 			fn := st.Field(i).Name()
-			key := fs.name + ":" + tn + "." + fn
-			if fs.allowAll[tn] || fs.allowed[tn+"."+fn] {
-				o := c.ok(fs.rule, key, "", tn+"."+fn+" may be written by "+fs.name, "inside the documented frame")
-				o.Trivial = len(byTarget[tn+"."+fn]) == 0
+			k := tn + "." + fn
+			key := fs.name + ":" + k
+			if fs.allowAll[tn] || isAllowed(k, false) {
+				o := c.ok(fs.rule, key, "", k+" may be re-assigned by "+fs.name, "inside the documented frame")
+				o.Trivial = len(byTarget[k]) == 0
+			} else {
+				es := append(append([]Effect{}, byTarget[k]...), whole...)
+				report(key, k+" must not be assigned by "+fs.name, es, "")
+			}
+			switch st.Field(i).Type().Underlying().(type) {
+			case *types.Slice, *types.Map:
+			default:
 				continue
 			}
-			es := append(append([]Effect{}, byTarget[tn+"."+fn]...), whole...)
-			report(key, tn+"."+fn+" must not be written by "+fs.name, es)
+			if fs.allowAll[tn] || (isAllowed(k, true) && fs.opsOnly[k+"[]"] == "") {
+				o := c.ok(fs.rule, key+"[]", "", "elements of "+k+" may be written by "+fs.name, "inside the documented frame")
+				o.Trivial = len(byTarget[k+"[]"]) == 0
+			} else if isAllowed(k, true) {
+				report(key+"[]", "elements of "+k+" may only be removed ("+fs.opsOnly[k+"[]"]+") by "+fs.name, byTarget[k+"[]"], fs.opsOnly[k+"[]"])
+			} else {
+				report(key+"[]", "elements of "+k+" must not be written in place by "+fs.name, byTarget[k+"[]"], "")
+			}
 		}
 	}
 	var unk []string
@@ -131,7 +166,7 @@ func (c *Check) checkFrame(m *modAnalyzer, fs frameSpec) (effects []Effect, nfn 
 	}
 	sort.Strings(unk)
 	for _, k := range unk {
-		report(fs.name+":"+k, "container "+k[1:]+" of unresolved origin must not be written by "+fs.name, byTarget[k])
+		report(fs.name+":"+k, "container "+k[1:]+" of unresolved origin must not be written by "+fs.name, byTarget[k], "")
 	}
 	return effects, nfn
 }
